@@ -1046,7 +1046,7 @@ func (m *Machine) PanicToErr(args A) {
 	if err, ok := r.(error); ok {
 		m.AddErr(err, args)
 	} else {
-		m.AddErr(fmt.Errorf("%v", err), args)
+		m.AddErr(fmt.Errorf("%v", r), args)
 	}
 }
 
